@@ -22,7 +22,9 @@ def group_state(I, ctx, crate, n=3, nhooks=2, ordered=False, changelog="empty", 
     sym_item(I, ctx, "cw4-hooks", "Vec<Addr>", crate)
     ms = sym_map(I, ctx, "members", [(a,) for a in U], "u64", crate)
     if large:
+        from mirsym.models.cosmwasm import valid_addr_pred
         for sl in ms.slots: sl[1] = True
+        for a in U: ctx.assume(valid_addr_pred(ctx, ctx.atom_of(a)))          # addresses from the replay pool are valid bech32
     sym_item(I, ctx, "total", "u64", crate, present=True)
     ctx.storage["members__checkpoints"] = MapStore("members__checkpoints", [], ["u64"], "u32")
     ctx.storage["total__checkpoints"] = MapStore("total__checkpoints", [], ["u64"], "u32")
